@@ -301,3 +301,51 @@ def classify_kf1(mgr, run_order, info):
         if cp is None or ct is None or cp[0] != ct[0] or cp[1] < 2:
             return False, "inversion %s before %s outside any rtasks cycle" % (t, p), inv
     return True, "all %d inversions inside rtasks cycles" % len(inv), inv
+
+
+# -- M5: reach counters (informational evidence, never part of a verdict) ---------------------------
+
+REACH = {}
+
+
+def install_reach_counters():
+    """Count entries of the anchored functions with sys.monitoring (PY_START on their code objects).
+    Functions are looked up by qualified name and silently skipped if absent (a refactoring that
+    renames internals must not turn a holding property into an alarm)."""
+    import sys
+    if "reach" in _installed or not hasattr(sys, "monitoring"):
+        return
+    import xdeps.sorting as S
+    import xdeps.tasks as T
+    mon = sys.monitoring
+    tool = 3
+    try:
+        mon.use_tool_id(tool, "xdverif-reach")
+    except ValueError:
+        return
+    wanted = {"Manager.set_value": T.Manager, "Manager.register": T.Manager, "Manager.unregister": T.Manager,
+              "Manager.find_taskids": T.Manager, "Manager.run_tasks": T.Manager, "Manager.load": T.Manager,
+              "Manager.refresh": T.Manager, "Manager.cleanup": T.Manager, "Manager.clone": T.Manager,
+              "Manager.verify": T.Manager, "Manager.copy_expr_from": T.Manager, "Manager.mk_fun": T.Manager,
+              "ExprTask.run": T.ExprTask, "FunctionTask.run": T.FunctionTask, "LinearKnob.run": T.LinearKnob}
+    codes = {}
+    for qual, cls in wanted.items():
+        fn = cls.__dict__.get(qual.split(".")[1])
+        fn = getattr(fn, "__wrapped__", fn)
+        code = getattr(fn, "__code__", None)
+        if code is not None:
+            codes[code] = qual
+    for name in ("toposort", "_dfs"):
+        fn = _installed.get("toposort_real") if name == "toposort" else getattr(S, name, None)
+        fn = fn or getattr(S, name, None)
+        if fn is not None and hasattr(fn, "__code__"):
+            codes[fn.__code__] = "sorting." + name
+
+    def on_start(code, offset):
+        q = codes.get(code)
+        if q is not None:
+            REACH[q] = REACH.get(q, 0) + 1
+    mon.register_callback(tool, mon.events.PY_START, on_start)
+    for code in codes:
+        mon.set_local_events(tool, code, mon.events.PY_START)
+    _installed["reach"] = True
